@@ -21,6 +21,12 @@ pub fn record(on: bool) {
     RECORDING.with(|r| r.set(on));
 }
 
+/// Whether recording is on for this thread (for hooks that keep typed
+/// snapshots instead of event text).
+pub fn recording() -> bool {
+    RECORDING.with(|r| r.get())
+}
+
 /// Appends one event (a JSON object as text) to the thread-local log if
 /// recording is on; the text is only built in that case.
 pub fn emit_with<F: FnOnce() -> String>(event: F) {
